@@ -471,47 +471,61 @@ Proof.
   - discriminate D.
 Qed.
 
-Theorem nonnegative_sound_guarded : forall rho A, oassum_ok rho A -> forall e t v, sign_guard e = true ->
+Lemma inject_Z_Qmake : forall k, inject_Z k = Qmake k 1.
+Proof. reflexivity. Qed.
+
+(* NonNegativeVisitor / NonPositiveVisitor (after the repair 089e9a7: nan and zoo answer false) *)
+Theorem nonnegative_sound : forall rho A, oassum_ok rho A -> forall e t v,
   is_nonnegative A e = QT t -> denote rho e = Some v -> (t = TT -> v_nonnegative v) /\ (t = TF -> ~ v_nonnegative v).
 Proof.
-  intros rho A O e t v G H D. destruct e; cbn [is_nonnegative] in H;
+  intros rho A O e t v H D. destruct e; cbn [is_nonnegative] in H;
     try (destruct (is_setbool _); [discriminate H | injection H as <-; split; discriminate]).
-  - cbn [denote] in D. pose proof (num_val_sign n v D) as S. injection H as <-.
-    destruct v as [z| | | |]; cbn [v_nonnegative].
-    + destruct S as [(q & Hq & -> & C)|[C NR]]; rewrite C.
-      * destruct (n_is_negative n) eqn:E; split; try discriminate; intros _.
-        -- intros [_ K]. cbn [fst] in K. pose proof (num_q_negative n q Hq E). lra.
-        -- split; [reflexivity|]. now apply (num_q_not_negative n).
-      * split; [discriminate|]. intros _ [K _]. contradiction.
-    + destruct S as (C & P & N). rewrite C, N. split; [tauto | discriminate].
-    + destruct S as (C & P & N). rewrite C, N. split; [discriminate | tauto].
-    + subst n. discriminate G.
-    + subst n. discriminate G.
+  - cbn [denote] in D. injection H as <-.
+    destruct n as [k|p d|rn rd imn imd|b|re im|dir|]; cbn in D; try discriminate D.
+    + injection D as <-. cbn. destruct (k <? 0)%Z eqn:E; split; try discriminate; intros _.
+      * intros [_ K]. cbn [fst] in K. pose proof (Qmake_neg k 1 E). rewrite inject_Z_Qmake in K. lra.
+      * split; [reflexivity|]. cbn [fst]. rewrite inject_Z_Qmake. now apply Qmake_nonneg.
+    + destruct (rat_canon p d); [|discriminate D]. injection D as <-. cbn. destruct (p <? 0)%Z eqn:E; split; try discriminate; intros _.
+      * intros [_ K]. cbn [fst] in K. pose proof (Qmake_neg p d E). lra.
+      * split; [reflexivity|]. cbn [fst]. now apply Qmake_nonneg.
+    + destruct (imn =? 0)%Z eqn:E; [discriminate D|]. injection D as <-. cbn. split; [discriminate|].
+      intros _ [K _]. unfold qi_real in K. cbn [snd] in K. now apply (Qmake_nonzero imn imd E).
+    + destruct dir as [|p|p]; cbn in D |- *; injection D as <-; cbn; split; try discriminate; tauto.
+    + injection D as <-. cbn. split; [discriminate | tauto].
   - eapply sym_map_sound; eauto. apply (oassum_field rho A (fun a => map_ok rho (a_nonnegative a) v_nonnegative) O). intros a K. apply K.
   - eapply sym_map_sound; eauto. apply (oassum_field rho A (fun a => map_ok rho (a_nonnegative a) v_nonnegative) O). intros a K. apply K.
   - discriminate D.
 Qed.
 
-Theorem nonpositive_sound_guarded : forall rho A, oassum_ok rho A -> forall e t v, sign_guard e = true ->
+Theorem nonpositive_sound : forall rho A, oassum_ok rho A -> forall e t v,
   is_nonpositive A e = QT t -> denote rho e = Some v -> (t = TT -> v_nonpositive v) /\ (t = TF -> ~ v_nonpositive v).
 Proof.
-  intros rho A O e t v G H D. destruct e; cbn [is_nonpositive] in H;
+  intros rho A O e t v H D. destruct e; cbn [is_nonpositive] in H;
     try (destruct (is_setbool _); [discriminate H | injection H as <-; split; discriminate]).
-  - cbn [denote] in D. pose proof (num_val_sign n v D) as S. injection H as <-.
-    destruct v as [z| | | |]; cbn [v_nonpositive].
-    + destruct S as [(q & Hq & -> & C)|[C NR]]; rewrite C.
-      * destruct (n_is_positive n) eqn:E; split; try discriminate; intros _.
-        -- intros [_ K]. cbn [fst] in K. pose proof (num_q_positive n q Hq E). lra.
-        -- split; [reflexivity|]. now apply (num_q_not_positive n).
-      * split; [discriminate|]. intros _ [K _]. contradiction.
-    + destruct S as (C & P & N). rewrite C, P. split; [discriminate | tauto].
-    + destruct S as (C & P & N). rewrite C, P. split; [tauto | discriminate].
-    + subst n. discriminate G.
-    + subst n. discriminate G.
+  - cbn [denote] in D. injection H as <-.
+    destruct n as [k|p d|rn rd imn imd|b|re im|dir|]; cbn in D; try discriminate D.
+    + injection D as <-. cbn. destruct (0 <? k)%Z eqn:E; split; try discriminate; intros _.
+      * intros [_ K]. cbn [fst] in K. pose proof (Qmake_pos k 1 E). rewrite inject_Z_Qmake in K. lra.
+      * split; [reflexivity|]. cbn [fst]. rewrite inject_Z_Qmake. now apply Qmake_nonpos.
+    + destruct (rat_canon p d); [|discriminate D]. injection D as <-. cbn. destruct (0 <? p)%Z eqn:E; split; try discriminate; intros _.
+      * intros [_ K]. cbn [fst] in K. pose proof (Qmake_pos p d E). lra.
+      * split; [reflexivity|]. cbn [fst]. now apply Qmake_nonpos.
+    + destruct (imn =? 0)%Z eqn:E; [discriminate D|]. injection D as <-. cbn. split; [discriminate|].
+      intros _ [K _]. unfold qi_real in K. cbn [snd] in K. now apply (Qmake_nonzero imn imd E).
+    + destruct dir as [|p|p]; cbn in D |- *; injection D as <-; cbn; split; try discriminate; tauto.
+    + injection D as <-. cbn. split; [discriminate | tauto].
   - eapply sym_map_sound; eauto. apply (oassum_field rho A (fun a => map_ok rho (a_nonpositive a) v_nonpositive) O). intros a K. apply K.
   - eapply sym_map_sound; eauto. apply (oassum_field rho A (fun a => map_ok rho (a_nonpositive a) v_nonpositive) O). intros a K. apply K.
   - discriminate D.
 Qed.
+
+(* the former guarded statements (the guard is no longer needed) *)
+Theorem nonnegative_sound_guarded : forall rho A, oassum_ok rho A -> forall e t v, sign_guard e = true ->
+  is_nonnegative A e = QT t -> denote rho e = Some v -> (t = TT -> v_nonnegative v) /\ (t = TF -> ~ v_nonnegative v).
+Proof. intros rho A O e t v _. now apply nonnegative_sound. Qed.
+Theorem nonpositive_sound_guarded : forall rho A, oassum_ok rho A -> forall e t v, sign_guard e = true ->
+  is_nonpositive A e = QT t -> denote rho e = Some v -> (t = TT -> v_nonpositive v) /\ (t = TF -> ~ v_nonpositive v).
+Proof. intros rho A O e t v _. now apply nonpositive_sound. Qed.
 
 (* ------------------------------------------------------------------ PositiveVisitor *)
 Lemma vfin_denote : forall rho e z, vfin (denote rho e) = Some z -> denote rho e = Some (VC z).
@@ -551,17 +565,17 @@ Section PosLoop.
 
   Lemma pos_add_loop_sound : forall d, incl d d0 -> forall ct cf t,
     pos_add_loop pos neg d ct cf = QT t ->
-    (t = TT -> ct = true /\ forall a z, qi_real a -> 0 <= fst a -> fold_right term_sem (Some a) d = Some z ->
-                 qi_real z /\ 0 <= fst z /\ (d <> [] -> 0 < fst z)) /\
-    (t = TF -> cf = true /\ forall a z, qi_real a -> fst a <= 0 -> fold_right term_sem (Some a) d = Some z ->
-                 qi_real z /\ fst z <= 0).
+    (t = TT -> ct = true /\ forall a z, fold_right term_sem (Some a) d = Some z ->
+                 snd z == snd a /\ fst a <= fst z /\ (d <> [] -> fst a < fst z)) /\
+    (t = TF -> cf = true /\ forall a z, fold_right term_sem (Some a) d = Some z ->
+                 snd z == snd a /\ fst z <= fst a).
   Proof.
     induction d as [|[k v] r IH]; intros INC ct cf t H; cbn [pos_add_loop] in H.
     - injection H as <-. split; intro E.
       + destruct ct; [|destruct cf; discriminate E]. split; [reflexivity|].
-        intros a z R P F. cbn in F. injection F as <-. repeat split; auto. intro K. now elim K.
+        intros a z F. cbn in F. injection F as <-. repeat split; try reflexivity; try apply Qle_refl. intro K. now elim K.
       + destruct ct; [discriminate E|]. destruct cf; [|discriminate E]. split; [reflexivity|].
-        intros a z R P F. cbn in F. injection F as <-. split; auto.
+        intros a z F. cbn in F. injection F as <-. split; [reflexivity | apply Qle_refl].
     - destruct (negb ct && negb cf) eqn:B.
       { injection H as <-. split; discriminate. }
       assert (INk : In k (map fst d0)) by (apply in_map_iff; exists (k, v); split; [reflexivity | apply INC; left; reflexivity]).
@@ -594,9 +608,9 @@ Section PosLoop.
             destruct (neg_ok k TT (VC kz) EN Dk) as [NK _]. destruct (NK eq_refl) as [RK GK].
             destruct (coef_negative v vz Dv A3) as [RV GV]. apply real_mul_pos; auto. nra. }
         destruct (IH INCr ct false t H) as [I1 I2]. split; intro E.
-        - destruct (I1 E) as [CT I]. split; [exact CT|]. intros a z R P F.
+        - destruct (I1 E) as [CT I]. split; [exact CT|]. intros a z F.
           destruct (STEP a z F) as (kz & vz & s & Dk & Dv & Fs & ->).
-          destruct (I a s R P Fs) as (Rs & Ps & _). destruct (TP kz vz Dk Dv) as [Rt Pt].
+          destruct (I a s Fs) as (Rs & Ps & _). destruct (TP kz vz Dk Dv) as [Rt Pt].
           unfold qi_real, qi_add in *. cbn [fst snd] in *. repeat split; first [lra | intros _; lra].
         - destruct (I2 E) as [CF _]. discriminate CF. }
       set (c2 := if n_is_negative v && t_true p then QT TT
@@ -618,9 +632,9 @@ Section PosLoop.
             destruct (coef_positive v vz Dv A3) as [RV GV]. apply real_mul_neg; auto. nra. }
         destruct (IH INCr false cf t H) as [I1 I2]. split; intro E.
         - destruct (I1 E) as [CT _]. discriminate CT.
-        - destruct (I2 E) as [CF I]. split; [exact CF|]. intros a z R P F.
+        - destruct (I2 E) as [CF I]. split; [exact CF|]. intros a z F.
           destruct (STEP a z F) as (kz & vz & s & Dk & Dv & Fs & ->).
-          destruct (I a s R P Fs) as (Rs & Ps). destruct (TN kz vz Dk Dv) as [Rt Pt].
+          destruct (I a s Fs) as (Rs & Ps). destruct (TN kz vz Dk Dv) as [Rt Pt].
           unfold qi_real, qi_add in *. cbn [fst snd] in *. split; lra. }
       destruct (IH INCr false false t H) as [I1 I2]. split; intro E.
       + destruct (I1 E) as [CT _]. discriminate CT.
@@ -632,10 +646,10 @@ Lemma fold_term_none : forall rho d, fold_right (term_sem rho) None d = None.
 Proof. induction d as [|p r IH]; cbn [fold_right]; [reflexivity|]. rewrite IH. reflexivity. Qed.
 
 Lemma pos_guard_add : forall c d, pos_guard (EAdd c d) = true ->
-  coef_real_exact c = true /\ d <> [] /\ forall k, In k (map fst d) -> pos_guard k = true.
+  d <> [] /\ forall k, In k (map fst d) -> pos_guard k = true.
 Proof.
-  intros c d G. cbn [pos_guard] in G. apply andb_prop in G. destruct G as [G G3]. apply andb_prop in G. destruct G as [G1 G2].
-  repeat split; auto.
+  intros c d G. cbn [pos_guard] in G. apply andb_prop in G. destruct G as [G2 G3].
+  split.
   - intro E. subst d. discriminate G2.
   - intros k Hk. apply in_map_iff in Hk. destruct Hk as ([k' v] & <- & Hin).
     rewrite forallb_forall in G3. apply (G3 _ Hin).
@@ -663,29 +677,28 @@ Proof.
   - eapply sym_map_sound; eauto. apply (oassum_field rho A (fun a => map_ok rho (a_positive a) v_positive) O). intros a K. apply K.
   - discriminate D.
   - (* Add *)
-    destruct (pos_guard_add coef d G) as (GC & GD & GK).
+    destruct (pos_guard_add coef d G) as (GD & GK).
     cbn [denote] in D.
     change (fold_right (fun p acc => add_step (vfin (denote rho (fst p))) (vfin (num_val (snd p))) acc) (vfin (num_val coef)) d)
       with (fold_right (term_sem rho) (vfin (num_val coef)) d) in D.
     destruct (vfin (num_val coef)) as [cz|] eqn:EC.
     2:{ rewrite fold_term_none in D. discriminate D. }
     destruct (fold_right (term_sem rho) (Some cz) d) as [z|] eqn:EF; [|discriminate D]. injection D as <-.
-    assert (CQ : exists q, num_q coef = Some q /\ cz = (q, 0)).
-    { destruct (num_fin_cases coef cz EC) as [K|(rn & rd & imn & imd & -> & _)]; [exact K | discriminate GC]. }
-    destruct CQ as (q & Hq & ->).
     pose proof (pos_add_loop_sound rho (q_positive A f) (is_negative A) d
                   (fun k t0 v0 Hk => IH k t0 v0 (GK k Hk)) (negative_sound rho A O) d (incl_refl d)
-                  (negb (n_is_negative coef)) (negb (n_is_positive coef)) t H) as [L1 L2].
-    cbn [v_positive]. split; intro E.
-    + destruct (L1 E) as [CT I]. apply negb_true_iff in CT.
-      destruct (I (q, 0) z) as (Rz & _ & Pz); auto; try reflexivity.
-      cbn [fst]. now apply (num_q_not_negative coef).
-    + destruct (L2 E) as [CF I]. apply negb_true_iff in CF.
-      destruct (I (q, 0) z) as (Rz & Pz); auto; try reflexivity.
-      { cbn [fst]. now apply (num_q_not_positive coef). }
-      intros [_ K]. lra.
+                  _ _ t H) as [L1 L2].
+    cbn [v_positive]. unfold qi_real. split; intro E.
+    + destruct (L1 E) as [CT I]. apply andb_prop in CT. destruct CT as [CT1 CT2].
+      apply negb_true_iff in CT1, CT2. destruct (I cz z EF) as (Sz & _ & Pz).
+      destruct (num_fin_cases coef cz EC) as [(q & Hq & ->)|(rn & rd & imn & imd & -> & _)]; [|discriminate CT2].
+      cbn [fst snd] in *. pose proof (num_q_not_negative coef q Hq CT1). split; [exact Sz|]. specialize (Pz GD). lra.
+    + destruct (L2 E) as [CF I]. apply negb_true_iff in CF. destruct (I cz z EF) as (Sz & Pz).
+      destruct (num_fin_cases coef cz EC) as [(q & Hq & ->)|(rn & rd & imn & imd & -> & NI & ->)]; cbn [fst snd] in *.
+      * pose proof (num_q_not_positive coef q Hq CF). intros [_ K]. lra.
+      * intros [K _]. rewrite Sz in K. now apply (Qmake_nonzero imn imd NI).
 Qed.
 
+(* pos_guard: every sum has at least one term *)
 Theorem positive_sound_guarded : forall rho A, oassum_ok rho A -> forall e t v, pos_guard e = true ->
   is_positive A e = QT t -> denote rho e = Some v -> (t = TT -> v_positive v) /\ (t = TF -> ~ v_positive v).
 Proof. intros rho A O e t v G H D. eapply positive_sound_fuel; eauto. Qed.
